@@ -12,6 +12,7 @@ package bits
 //@ spec func readerOK(r *Reader) bool = r != nil && 0 <= r.offset && r.offset <= 8*len(r.buf)
 
 //@ func (r *Reader) ReadBit() (res uint8)
+//@   partial
 //@   requires readerOK(r) && r.offset < 8*len(r.buf)
 //@   modifies r.offset
 //@   ensures r.offset == old(r.offset) + 1
@@ -19,6 +20,7 @@ package bits
 //@   ensures readerOK(r)
 
 //@ func (r *Reader) Skip(n int) ()
+//@   partial
 //@   requires readerOK(r) && n <= 8*len(r.buf) - r.offset
 //@   modifies r.offset
 //@   ensures n > 0 ==> r.offset == old(r.offset) + n
@@ -26,6 +28,7 @@ package bits
 //@   ensures readerOK(r)
 
 //@ func (r *Reader) readUint64(n int, max int) (res uint64)
+//@   partial
 //@   requires readerOK(r) && max <= 64 && n <= 8*len(r.buf) - r.offset
 //@   modifies r.offset
 //@   loop 0: unroll 9
@@ -36,6 +39,7 @@ package bits
 //@   ensures readerOK(r)
 
 //@ func (r *Reader) Read(n int) (res uint32)
+//@   partial
 //@   requires readerOK(r) && n <= 8*len(r.buf) - r.offset
 //@   modifies r.offset
 //@   ensures (n <= 0 || n > 32) ==> res == 0 && r.offset == old(r.offset)
@@ -49,6 +53,7 @@ package bits
 //@ spec func ueOK(buf []byte, o int, k int, res uint32) bool = 0 <= k && k <= 31 && forall(j, 0, k, bitAt(buf, o+j) == 0) && bitAt(buf, o+k) == 1 && (res + 1) >> uint(k) == 1 && forall(j, 0, k, uint8((res + 1) >> uint(k-1-j)) & 1 == bitAt(buf, o+k+1+j))
 
 //@ func (r *Reader) ReadUe() (res uint32)
+//@   partial
 //@   requires readerOK(r) && r.offset + 65 <= 8*len(r.buf)
 //@   modifies r.offset
 //@   terminates
@@ -63,6 +68,7 @@ package bits
 // signed Exp-Golomb se(v), H.264 9.1.1: codeNum k maps to (-1)^(k+1) * ceil(k/2); stated through the inverse map
 //@ spec func seCode(v int32) uint32 = uint32(iteInt(v > 0, 2*int(v) - 1, -2*int(v)))
 //@ func (r *Reader) ReadSe() (res int32)
+//@   partial
 //@   requires readerOK(r) && r.offset + 65 <= 8*len(r.buf)
 //@   modifies r.offset
 //@   ensures readerOK(r) && (r.offset - old(r.offset)) % 2 == 1
